@@ -10,6 +10,7 @@ import (
 	"mellium.im/xmlstream"
 	"mellium.im/xmpp"
 	"mellium.im/xmpp/jid"
+	"mellium.im/xmpp/stanza"
 	"verifharness/hx"
 )
 
@@ -99,7 +100,7 @@ func (x *runner) exhaustiveLookups(r *hx.Rand) {
 	}
 }
 
-func (x *runner) exhaustiveChildren(r *hx.Rand) {
+func (x *runner) exhaustiveChildren(r *hx.Rand, depth int) {
 	names := [][2]string{{"x", "a"}, {"y", "b"}, {"x", "b"}, {"z", "c"}}
 	regs := [][]pat{
 		{{K: 2, T: "chat", S: "x", L: "a", H: 1}, {K: 2, T: "chat", S: "", L: "b", H: 2}, {K: 3, T: "", S: "x", L: "a", H: 3}, {K: 3, T: "", S: "y", L: "", H: 4}},
@@ -118,7 +119,7 @@ func (x *runner) exhaustiveChildren(r *hx.Rand) {
 			rec(append(cur, i), n-1)
 		}
 	}
-	rec(nil, 3)
+	rec(nil, depth)
 	k := 0
 	for _, seq := range seqs {
 		for ri, ops := range regs {
@@ -599,7 +600,21 @@ func (x *runner) session(c *dcase) {
 		x.fail("C14/session/wedged", "neither the next element was served nor did Serve return within 5s", c)
 		return
 	}
-	wire := p.WaitQuiet(2*time.Millisecond, 300*time.Millisecond)
+	// a request that no handler answered must be answered by the mux or the
+	// session: wait for that reply (bounded); otherwise wait for the wire to settle
+	ctyp := ""
+	for _, a := range c.Attrs {
+		if a.L == "type" {
+			ctyp = a.V
+		}
+	}
+	wire := p.WaitQuiet(5*time.Millisecond, 300*time.Millisecond)
+	if c.Name[1] == "iq" && (ctyp == "get" || ctyp == "set") {
+		for dl := time.Now().Add(3 * time.Second); !bytes.Contains(wire, []byte("</iq>")) && time.Now().Before(dl); {
+			time.Sleep(2 * time.Millisecond)
+			wire = p.Written()
+		}
+	}
 	if !stopped {
 		p.Send([]byte("</stream:stream>"))
 		select {
@@ -636,7 +651,8 @@ func (x *runner) session(c *dcase) {
 			n++
 		}
 	}
-	if perr == nil && c.Name[1] == "iq" && (typ == "get" || typ == "set") && hpanic == "" && (direct.Ret != "err" || len(direct.Events) == 0) {
+	_, addrErr := stanza.NewIQ(startOf(c)) // an IQ whose addresses do not parse cannot be answered by the mux (not C14's concern)
+	if perr == nil && c.Name[1] == "iq" && (typ == "get" || typ == "set") && hpanic == "" && addrErr == nil && (direct.Ret != "err" || len(direct.Events) == 0) {
 		if n != 1 {
 			x.fail("C14/session/iq-unanswered", fmt.Sprintf("a %s IQ was answered %d times on the wire (Serve stopped=%v err=%v)", typ, n, stopped, serveErr), c)
 		}
